@@ -40,8 +40,8 @@ class MultiVector:
             for key in list(items.keys()):
                 if key not in algebra.canon2bin:
                     target, swaps = algebra._blade2canon(key)
-                    if swaps % 2:
-                        items[target] = - items.pop(key)
+                    value = items.pop(key)
+                    items[target] = - value if swaps % 2 else value
 
             keys, values = zip(*((blade, items[blade]) for blade in algebra.canon2bin if blade in items))
             values = list(values)
